@@ -11,23 +11,32 @@ formula m = Re(R^H (R R^H + N)^-1 (d - c)) (evaluated on the real 2 nd-dimension
 with it (self-test of the oracle, a disagreement is a harness error).
 
 Sub-checks
-  re_wiener     : nifty.re.wiener_filter_posterior, signal space and data space, mean + mirrored samples + exact
-                  sample covariance through the white-noise tape (vlib/tape_re.py)
-  re_optimize_kl: nifty.re.optimize_kl MAP (n_samples=0) and MGVI (linear samples): position, sample mean, exact
-                  sample covariance (tape)
+  re_wiener_and_kl (one worker per shape variant serves both APIs, so XLA kernels are compiled once):
+     api wiener     : nifty.re.wiener_filter_posterior, signal space and data space, mean + antithetic samples +
+                      exact sample covariance through the white-noise tape (vlib/tape_re.py)
+     api optimize_kl: nifty.re.optimize_kl MAP (n_samples=0) and MGVI (linear samples): position, sample mean,
+                      exact sample covariance (tape)
   cl_curvature  : nifty.cl WienerFilterCurvature: times == A, inverse_times(j) == m, draw_sample covariance == A
                   resp. D (tape vlib/tape_rng.py)
   cl_optimize_kl: nifty.cl optimize_kl MAP and MGVI: returned mean, sample average, exact sample covariance (tape)
   mc_backstop   : black-box Monte-Carlo (real RNGs, compiled JAX sampler): whitened second moments against
                   chi-square quantiles, total false-alarm probability < 1e-8 per run
+
+Genuine defects found with this module (regression recipes in corpus/C20, patches in fixes/C20_*.diff, standalone
+reproduction fixes/C20_repro.py):
+  * wiener_filter_posterior with the default draw_linear_kwargs=None raises AttributeError
+  * complex data: the likelihood part of the residual samples is drawn with half the variance (jax.random.normal
+    draws complex numbers with variance 1/2 per real/imaginary part), so sample covariances are
+    D (M/2 + 1) D instead of D; found by the tape and, independently, by the Monte-Carlo backstop
 """
 import logging
 import math
+import os
 
 import numpy as np
 from hypothesis import strategies as st
 
-from vlib import Sub, close, require
+from vlib import Sub, Violation, close, require
 from vlib import strat as S
 
 PROPERTY = "C20"
@@ -79,6 +88,9 @@ ASSUMPTIONS = [
 ]
 
 EPS = float(np.finfo(np.float64).eps)
+# per-shard time budget of the quick tier (seconds); C20_BUDGET only exists to let a validation run on an overloaded
+# machine finish its case lists - the default is what the evidence is produced with
+BUDGET = float(os.environ.get("C20_BUDGET", "100"))
 CG_TOL = 1e-10
 XTOL = 1e-11
 
@@ -161,8 +173,18 @@ class Problem:
         return self.rank < min(self.nd, self.ns) or self.nd != self.ns
 
 
+def _rare(draw, k):
+    """True with probability ~1/k; the minimal Hypothesis example is False"""
+    return draw(st.sampled_from([False] * (k - 1) + [True]))
+
+
+def _often(draw, k):
+    """True with probability ~(k-1)/k; the minimal Hypothesis example is True"""
+    return draw(st.sampled_from([True] * (k - 1) + [False]))
+
+
 def _R_strategy(draw, nd, ns):
-    kind = draw(st.sampled_from(["generic", "generic", "lowrank", "lowrank", "sparse", "zero"]))
+    kind = draw(st.sampled_from(["generic", "lowrank", "sparse", "generic", "lowrank", "zero"]))
     if kind == "generic":
         return draw(S.mat(nd, ns, S.dyadic(-2, 2, 4))), kind
     if kind == "zero":
@@ -192,9 +214,9 @@ def problems(draw, cplx=False, affine_ok=False, prior_ok=False, shape=None, maxd
     if cplx:
         p["Ri"], _ = _R_strategy(draw, nd, ns)
         p["di"] = draw(S.vec(nd, S.dyadic(-4, 4, 8)))
-    if affine_ok and draw(st.integers(0, 3)) == 0:
+    if affine_ok and _rare(draw, 4):
         p["c"] = draw(S.vec(nd, S.dyadic(-2, 2, 4)))
-    if prior_ok and draw(st.integers(0, 3)) == 0:
+    if prior_ok and _rare(draw, 4):
         p["sv"] = draw(S.vec(ns, S.dyadic_nz(0.25, 4, 4, signed=False)))
     return p
 
@@ -230,16 +252,28 @@ def _generate(strategy, n, seed):
     return out
 
 
-def _jax_cases(recipe_strategy, tier, seed, per_variant, tag):
+def _jax_cases(parts, tier, seed):
+    """parts: [(api tag, recipe strategy(variant), cases per variant quick, thorough)]; the recipes of all parts are
+    interleaved per variant, so that one worker compiles the kernels of a variant once for all APIs"""
     variants = JAX_VARIANTS_QUICK if tier == "quick" else JAX_VARIANTS_QUICK + JAX_VARIANTS_MORE
     cols = []
     for vi, v in enumerate(variants):
-        hs = int.from_bytes(f"{tag}:{seed}:{vi}".encode(), "little") % (2**63)
-        cols.append(_generate(recipe_strategy(v), per_variant, hs))
+        col = []
+        for tag, recipe_strategy, nq, nt in parts:
+            hs = int.from_bytes(f"{tag}:{seed}:{vi}".encode(), "little") % (2**63)
+            recs = _generate(recipe_strategy(v), nq if tier == "quick" else nt, hs)
+            col.append([dict(r, api=tag) for r in recs])
+        # spread the rarer API evenly over the column (a budget that runs out then cuts both alike)
+        merged, longest = [], max(len(c) for c in col)
+        for i in range(longest):
+            for c in col:
+                lo, hi = i * len(c) // longest, (i + 1) * len(c) // longest
+                merged.extend(c[lo:hi])
+        cols.append(merged)
     out = []
     for i in range(max(len(c) for c in cols)):
         for c in cols:
-            out.append(c[i % len(c)] if i >= len(c) else c[i])
+            out.append(c[i % len(c)])
     return out
 
 
@@ -369,7 +403,7 @@ def check_re_wiener(rec):
         full = _re_flat_batch(smp.samples, nret)
         close(full.mean(axis=0), got, "sample_mean_differs_from_position", tol=1e-12,
               scale=P.scale + float(np.max(np.abs(res))))
-    classes = P.classes() + ["space_" + rec["space"], "jit_%d" % rec["jit"], "nsamp_%d" % n, "noise_" + rec["noise"],
+    classes = P.classes() + ["api_wiener", "space_" + rec["space"], "jit_%d" % rec["jit"], "nsamp_%d" % n, "noise_" + rec["noise"],
                              "kw_" + rec["kw"], "keys_%d" % (1 if rec["split"] is None else 2),
                              "linearised" if not rec["lin"] else "linear_flag",
                              "position_given" if rec["pos"] is not None else "position_none"]
@@ -387,18 +421,18 @@ def check_re_wiener(rec):
 @st.composite
 def re_wiener_recipes(draw, variant):
     p, split = _jax_problem(draw, variant, affine_ok=True)
-    lin = p["c"] is None and draw(st.integers(0, 3)) != 0
+    lin = p["c"] is None and _often(draw, 4)
     pos = None
-    if not lin or draw(st.integers(0, 2)) == 0:
+    if not lin or _rare(draw, 3):
         pos = draw(S.vec(p["ns"], S.dyadic(-2, 2, 4)))
     space = draw(st.sampled_from(["signal", "signal", "data"]))
     kw = "tight"
-    if space == "signal" and p["Ri"] is None and draw(st.integers(0, 5)) == 0:
+    if space == "signal" and p["Ri"] is None and _rare(draw, 3):
         kw = "default"
     return {"p": p, "split": split, "noise": draw(st.sampled_from(["both", "cov", "std"])),
-            "space": space, "give_ncov": draw(st.booleans()), "jit": draw(st.integers(0, 3)) == 0, "lin": lin,
-            "pos": pos, "kw": kw, "nsamp": draw(st.sampled_from([0, 1, 2])), "seed": draw(st.integers(0, 2**31 - 1)),
-            "cov": draw(st.integers(0, 2)) != 0}
+            "space": space, "give_ncov": draw(st.booleans()), "jit": _rare(draw, 4), "lin": lin,
+            "pos": pos, "kw": kw, "nsamp": draw(st.sampled_from([1, 0, 2])), "seed": draw(st.integers(0, 2**31 - 1)),
+            "cov": _often(draw, 3)}
 
 
 def check_re_okl(rec):
@@ -436,7 +470,7 @@ def check_re_okl(rec):
         full = _re_flat_batch(smp.samples, 2 * n)
         close(full.mean(axis=0), P.m, "sample_mean", tol=1.0, scale=tol + 1e-12 * (1 + float(np.max(np.abs(res)))),
               detail="mean of the final samples vs exact posterior mean")
-    classes = P.classes() + [what, "nit_%d" % rec["nit"], "jit_%d" % rec["jit"], "nsamp_%d" % n,
+    classes = P.classes() + ["api_optimize_kl", what, "nit_%d" % rec["nit"], "jit_%d" % rec["jit"], "nsamp_%d" % n,
                              "keys_%d" % (1 if rec["split"] is None else 2), "mode_" + rec["mode"],
                              "kl_status_%s" % int(state.minimization_state.status)]
     if rec["cov"]:
@@ -453,12 +487,12 @@ def check_re_okl(rec):
 @st.composite
 def re_okl_recipes(draw, variant):
     p, split = _jax_problem(draw, variant)
-    nsamp = draw(st.sampled_from([0, 0, 1, 2]))
+    nsamp = draw(st.sampled_from([1, 0, 2, 0]))
     return {"p": p, "split": split, "noise": draw(st.sampled_from(["both", "cov"])),
             "nsamp": nsamp, "nit": draw(st.sampled_from([1, 1, 2])),
             "mode": draw(st.sampled_from(["linear_resample", "linear_sample"])),
-            "jit": draw(st.integers(0, 5)) == 0, "pos0": draw(S.vec(p["ns"], S.dyadic(-2, 2, 4))),
-            "seed": draw(st.integers(0, 2**31 - 1)), "cov": nsamp > 0 and draw(st.booleans())}
+            "jit": _rare(draw, 6), "pos0": draw(S.vec(p["ns"], S.dyadic(-2, 2, 4))),
+            "seed": draw(st.integers(0, 2**31 - 1)), "cov": nsamp > 0 and _often(draw, 3)}
 
 
 # ====================================================================================== nifty.cl side
@@ -577,7 +611,7 @@ def check_cl_curvature(rec):
 def cl_curv_recipes(draw, tier):
     p = draw(problems(prior_ok=True))
     return {"p": p, "rkind": draw(st.sampled_from(["dense", "lib"])), "lib": draw(st.integers(0, 3)),
-            "ic": draw(st.sampled_from(["rel", "abs"])), "sampling": draw(st.integers(0, 3)) != 0,
+            "ic": draw(st.sampled_from(["rel", "abs"])), "sampling": _often(draw, 4),
             "modes": draw(st.sampled_from([["inverse_times"], ["inverse_times", "adjoint_inverse_times"]]))}
 
 
@@ -645,11 +679,11 @@ def check_cl_okl(rec):
 @st.composite
 def cl_okl_recipes(draw, tier):
     p = draw(problems())
-    nsamp = draw(st.sampled_from([0, 0, 1, 2]))
+    nsamp = draw(st.sampled_from([1, 0, 2, 0]))
     return {"p": p, "split": _domspec(draw, p["ns"]), "lib": draw(st.integers(0, 3)), "nsamp": nsamp,
             "nit": draw(st.sampled_from([1, 1, 2])), "pos0": draw(S.vec(p["ns"], S.dyadic(-2, 2, 4))),
             "seed": draw(st.integers(0, 2**31 - 1)), "sic_always": draw(st.booleans()),
-            "sanity": draw(st.booleans()), "cov": nsamp > 0 and draw(st.booleans())}
+            "sanity": draw(st.booleans()), "cov": nsamp > 0 and _often(draw, 3)}
 
 
 # ====================================================================================== Monte-Carlo backstop
@@ -784,27 +818,38 @@ def mc_cases(tier, seed):
     return out
 
 
+def check_re(rec):
+    """both JAX APIs share the sub-check (one worker per shape variant); the failure kinds carry the API name, so
+    that the buckets of the two APIs stay separate"""
+    try:
+        return check_re_wiener(rec) if rec["api"] == "wiener" else check_re_okl(rec)
+    except Violation as v:
+        raise Violation(rec["api"] + ":" + v.kind, v.detail) from None
+
+
+def re_cases(tier, seed):
+    return _jax_cases([("wiener", re_wiener_recipes, 24, 300), ("optimize_kl", re_okl_recipes, 14, 200)], tier, seed)
+
+
 _NT = "non-trivial = R rank-deficient (incl. zero) or non-square"
 SUBS = [
-    Sub(name="re_wiener", check=check_re_wiener, jax=True, shards=4, budget_quick=100.0,
-        cases=lambda tier, seed: _jax_cases(re_wiener_recipes, tier, seed, 24 if tier == "quick" else 300, "w"),
-        rule="nifty.re.wiener_filter_posterior in signal and data space (jit on/off, array or two-key Vector "
-             "parameters, cov_inv/std_inv/both, position, model_is_linear=False incl. affine offset, default "
-             "draw_linear_kwargs) vs dense mean; mirrored samples; tape-exact sample covariance; " + _NT),
-    Sub(name="re_optimize_kl", check=check_re_okl, jax=True, shards=4, budget_quick=100.0,
-        cases=lambda tier, seed: _jax_cases(re_okl_recipes, tier, seed, 14 if tier == "quick" else 200, "o"),
-        rule="nifty.re.optimize_kl MAP / MGVI (1-2 iterations, linear_sample/linear_resample, jit on/off) vs dense "
-             "mean; tape-exact covariance of the linear samples; " + _NT),
+    Sub(name="re_wiener_and_kl", check=check_re, cases=re_cases, jax=True, shards=4, budget_quick=BUDGET,
+        rule="one list of cases per (ns, nd, keys, complex) variant, two APIs (classes api_*): "
+             "[api_wiener] nifty.re.wiener_filter_posterior in signal and data space (jit on/off, array or two-key "
+             "Vector parameters, cov_inv/std_inv/both, position, model_is_linear=False incl. affine offset, default "
+             "draw_linear_kwargs) vs dense mean; antithetic samples; tape-exact sample covariance; "
+             "[api_optimize_kl] nifty.re.optimize_kl MAP / MGVI (1-2 iterations, linear_sample/linear_resample, jit "
+             "on/off) vs dense mean; tape-exact covariance of the linear samples; " + _NT),
     Sub(name="cl_curvature", check=check_cl_curvature, strategy=lambda tier: cl_curv_recipes(tier),
-        quick=400, thorough=12000, shards=2, budget_quick=100.0,
+        quick=400, thorough=12000, shards=2, budget_quick=BUDGET,
         rule="nifty.cl WienerFilterCurvature(R, N, S) with user-written dense R or library Mask.MatrixProduct R, "
              "diagonal/scaling N, unit or diagonal prior: times == A, inverse_times/adjoint_inverse_times/inverse(j) "
              "== m, tape-exact draw_sample covariances (A and D); " + _NT),
     Sub(name="cl_optimize_kl", check=check_cl_okl, strategy=lambda tier: cl_okl_recipes(tier),
-        quick=160, thorough=4000, shards=3, budget_quick=100.0,
+        quick=160, thorough=4000, shards=3, budget_quick=BUDGET,
         rule="nifty.cl optimize_kl MAP (n_samples=0) and MGVI on one- and two-key MultiDomains: returned mean and "
              "sample average vs dense mean, tape-exact residual covariance; " + _NT),
-    Sub(name="mc_backstop", check=check_mc, cases=mc_cases, jax=True, shards=3, budget_quick=110.0,
+    Sub(name="mc_backstop", check=check_mc, cases=mc_cases, jax=True, shards=3, budget_quick=BUDGET,
         budget_thorough=900.0,
         rule="black-box Monte-Carlo: 2048 (optimize_kl: 400) residuals from the real RNGs, whitened with the oracle "
              "covariance, chi-square quantiles at 1e-12; every case non-trivial"),
